@@ -236,7 +236,7 @@ impl Fixture {
         }
         let fresh = |tag: &str| -> PathBuf {
             let d = base.join(tag);
-            std::fs::create_dir_all(d.join("refs")).unwrap_or_else(|e| vkit::machinery!("mkdir: {e}"));
+            std::fs::create_dir_all(d.join("refs/heads")).and_then(|_| std::fs::create_dir_all(d.join("refs/tags"))).unwrap_or_else(|e| vkit::machinery!("mkdir: {e}"));
             std::fs::write(d.join("HEAD"), "ref: refs/heads/a\n").unwrap_or_else(|e| vkit::machinery!("write HEAD: {e}"));
             std::fs::write(d.join("config"), "[core]\n\trepositoryformatversion = 0\n\tfilemode = true\n\tbare = true\n")
                 .unwrap_or_else(|e| vkit::machinery!("write config: {e}"));
@@ -373,6 +373,8 @@ fn commit_class(e: &file::transaction::commit::Error) -> &'static str {
     }
 }
 
+pub static ENOTDIR_LOOKUPS: std::sync::atomic::AtomicU64 = std::sync::atomic::AtomicU64::new(0);
+
 /// What an observer saw: name -> value, with values outside the universe rendered as text.
 pub type View = BTreeMap<String, String>;
 
@@ -401,6 +403,7 @@ impl Fixture {
     /// or an error returned by the store.
     pub fn observe_gix(&self, store: &file::Store) -> Result<View, String> {
         let mut by_find = View::new();
+        let mut enotdir: Vec<&str> = Vec::new();
         for n in NAMES {
             match store.try_find(n) {
                 Ok(Some(r)) => {
@@ -410,6 +413,12 @@ impl Fixture {
                     by_find.insert(n.to_string(), self.show_target(&r.target));
                 }
                 Ok(None) => {}
+                // `refs/heads/a/b` while `refs/heads/a` is a loose file: the lookup reports ENOTDIR instead of "not found".
+                // That is a property of lookups (C18), not of transactions; iter() is the observer for this name then.
+                Err(file::find::Error::ReadFileContents { source, .. }) if source.raw_os_error() == Some(20) => {
+                    ENOTDIR_LOOKUPS.fetch_add(1, std::sync::atomic::Ordering::Relaxed);
+                    enotdir.push(n);
+                }
                 Err(e) => return Err(format!("try_find({n}) failed: {e:?}")),
             }
         }
@@ -420,6 +429,11 @@ impl Fixture {
             let name = r.name.as_bstr().to_string();
             if by_iter.insert(name.clone(), self.show_target(&r.target)).is_some() {
                 return Err(format!("iter().all() yields {name} twice"));
+            }
+        }
+        for n in enotdir {
+            if let Some(v) = by_iter.get(n) {
+                by_find.insert(n.to_string(), v.clone());
             }
         }
         let mut expect_iter = by_find.clone();
@@ -457,7 +471,7 @@ impl Fixture {
         for (n, v) in expect {
             let name = NAMES[*n as usize];
             if let Val::Sym(_) = v {
-                let o = git_try(dir, &self.objects_dir, &["symbolic-ref", "-q", name]);
+                let o = git_try(dir, &self.objects_dir, &["symbolic-ref", "-q", "--no-recurse", name]);
                 if o.ok {
                     view.insert(name.to_string(), format!("->{}", o.text()));
                 } else {
@@ -472,7 +486,7 @@ impl Fixture {
                         None => format!("unknown-id:{id}"),
                     };
                     // a symbolic HEAD would also resolve; make sure it is detached
-                    let s = git_try(dir, &self.objects_dir, &["symbolic-ref", "-q", "HEAD"]);
+                    let s = git_try(dir, &self.objects_dir, &["symbolic-ref", "-q", "--no-recurse", "HEAD"]);
                     view.insert("HEAD".into(), if s.ok { format!("->{}", s.text()) } else { val });
                 }
             }
